@@ -36,6 +36,15 @@ package server
 //@   loop 2 invariant rangeindex >= len(m.Layers) ==> bname(m.Config.Digest) != bname(l.Digest)
 //@   assert-at call os.Remove #1 : ghost_hit == 0
 //@   assert-at call os.Remove #1 : arg0 == blobpath(l.Digest)
+// (round 4) The removal is licensed by a scan that SUCCEEDED (a swallowed scan error leaves an empty
+// scan result: "no user found"), and the clauses hold at EVERY os.Remove site of the function, not
+// only the first; no other removal primitive is used.
+//@   ghost-at entry : ghost_scanok := 0
+//@   ghost-at after call Manifests #1 : ghost_scanok := ite(result.1 == nil, 1, 0)
+//@   assert-at call os.Remove : ghost_scanok == 1 && ghost_hit == 0 && arg0 == blobpath(l.Digest)
+//@   assert-at call os.RemoveAll : false
+//@   assert-at call os.Rename : false
+//@   assert-at call os.Truncate : false
 
 // deleteUnusedLayers: witd() is an arbitrary fixed digest string (uninterpreted constant: what is
 // proved about it holds for every digest). ghost_ref == 1 iff a manifest of the scan whose loop
@@ -58,6 +67,17 @@ package server
 //@   assert-at call os.Remove #1 : old(has(deleteMap, k))
 //@   assert-at call os.Remove #1 : arg0 == blobpath(k)
 //@   assert-at call os.Remove #1 : ghost_ref == 1 ==> bname(k) != bname(witd())
+// (round 4) as for Layer.Remove: only after a scan that succeeded; at every os.Remove site; no other
+// removal primitive.
+//@   ghost-at entry : ghost_scanok := 0
+//@   ghost-at after call Manifests #1 : ghost_scanok := ite(result.1 == nil, 1, 0)
+//@   loop 1 invariant ghost_scanok == 1
+//@   loop 2 invariant ghost_scanok == 1
+//@   loop 3 invariant ghost_scanok == 1
+//@   assert-at call os.Remove : ghost_scanok == 1 && old(has(deleteMap, k)) && arg0 == blobpath(k) && (ghost_ref == 1 ==> bname(k) != bname(witd()))
+//@   assert-at call os.RemoveAll : false
+//@   assert-at call os.Rename : false
+//@   assert-at call os.Truncate : false
 
 // ---- (3) CASE-INSENSITIVE CANONICALISATION ---------------------------------------------------
 // strings.EqualFold(s, t) <==> sfoldeq(s, t) (trusted, types/model block); simple case folding
@@ -94,6 +114,11 @@ package server
 //@   loop 2 invariant ghost_wseen == 1 ==> !(sfoldeq(wxh(), rqh()) && sfoldeq(wxn(), rqn()) && sfoldeq(wxm(), rqm()) && sfoldeq(wxt(), rqt()))
 //@   ensures result.1 == nil ==> sfoldeq(result.0.Host, n.Host) && sfoldeq(result.0.Namespace, n.Namespace) && sfoldeq(result.0.Model, n.Model) && sfoldeq(result.0.Tag, n.Tag)
 //@   ensures result.1 == nil && ghost_wseen == 1 && sfoldeq(wxh(), result.0.Host) && sfoldeq(wxn(), result.0.Namespace) && sfoldeq(wxm(), result.0.Model) && sfoldeq(wxt(), result.0.Tag) ==> wxh() == result.0.Host && wxn() == result.0.Namespace && wxm() == result.0.Model && wxt() == result.0.Tag
+// (round 4) a name is returned only after the store was listed successfully (a swallowed scan error
+// would hand back the request unchanged: a case variant of an existing model gets created).
+//@   ghost-at entry : ghost_scanok := 0
+//@   ghost-at after call Manifests #1 : ghost_scanok := ite(result.1 == nil, 1, 0)
+//@   ensures result.1 == nil ==> ghost_scanok == 1
 
 // ---- (2) ORDER OF EFFECTS (C04 + C12) --------------------------------------------------------
 // The file-system library functions (os.Remove, os.Rename, os.Stat, os.CreateTemp, ...) get no
@@ -130,9 +155,21 @@ package server
 //@   ghost-at after call os.Remove #1 : ghost_unlinked := ite(result == nil, 1, 0)
 //@   assert-at call PruneDirectory #1 : ghost_unlinked == 1
 //@   assert-at return : result == nil ==> ghost_unlinked == 1
+// (round 4) the ONLY thing Manifest.Remove unlinks is this manifest's own file (every os.Remove site,
+// no os.RemoveAll: removing the model directory would take the other tags - other models - with
+// it); the directory prune starts at the manifests root.
+//@   assert-at call os.Remove : arg0 == m.filepath
+//@   assert-at call os.RemoveAll : false
+//@   assert-at call os.Rename : false
+//@   assert-at call PruneDirectory #1 : arg0 == manifests
 
 // RemoveLayers removes blobs only through Layer.Remove (scan first).
 //@ func (*Manifest).RemoveLayers
+// (round 4) ... and through nothing else: no direct removal primitive in this function.
+//@   assert-at call os.Remove : false
+//@   assert-at call os.RemoveAll : false
+//@   assert-at call os.Rename : false
+//@   assert-at call os.Truncate : false
 
 // DeleteHandler: layers are touched only after Manifest.Remove returned nil for the same manifest
 // (so the manifest being deleted no longer protects - and no longer needs - its layers, and a
@@ -142,6 +179,16 @@ package server
 //@   ghost-at after call (*Manifest).Remove #1 : ghost_mgone := ite(result == nil, 1, 0)
 //@   assert-at call RemoveLayers #1 : ghost_mgone == 1
 //@   assert-at call RemoveLayers #1 : arg0 == m
+// (round 4) every RemoveLayers / Manifest.Remove site; the manifest removed is the one parsed for the
+// requested name; the handler removes nothing directly.
+//@   assert-at call RemoveLayers : ghost_mgone == 1 && arg0 == m
+//@   assert-at call (*Manifest).Remove : arg0 == m
+//@   assert-at call ParseNamedManifest #1 : arg0 == n
+//@   assert-at call os.Remove : false
+//@   assert-at call os.RemoveAll : false
+//@   assert-at call (*Layer).Remove : false
+//@   assert-at call deleteUnusedLayers : false
+//@   assert-at call PruneLayers : false
 
 // NewLayer: the temp file lives in the blobs directory (same directory as the final name, so the
 // rename is a rename within one directory); the rename to the digest name happens only after the
@@ -163,6 +210,34 @@ package server
 //@   assert-at call os.Remove : arg0 == temp.Name()
 //@   ghost-at after call os.Remove : ghost_cleaned := 1
 //@   assert-at return : ghost_tmp == 1 ==> ghost_cleaned == 1
+// (round 4) A layer is returned only for a blob that is in the store under the returned digest:
+// the existence test is made on blobpath(digest) itself, and success means that test succeeded or the
+// rename succeeded (a swallowed rename error, or a test on another path, returns a layer whose
+// blob is missing - the manifest written next would list it). The bytes hashed are the bytes
+// written: one io.Copy from r into MultiWriter(temp, hash). The returned record carries that
+// digest, the number of bytes copied and the requested media type ("matching digests and sizes").
+// Every os.Rename / os.Remove site obeys the clauses above; no other removal primitive.
+//@   ghost-at entry : ghost_present := 0
+//@   assert-at call os.Stat #1 : arg0 == blobpath(digest) && ghost_copied == 1 && ghost_closed == 1
+//@   ghost-at after call os.Stat #1 : ghost_present := ite(result.1 == nil, 1, 0)
+//@   ghost-at after call os.Rename #1 : ghost_present := ite(result == nil, 1, ghost_present)
+//@   ghost-at entry : ghost_xclosed := 0
+//@   ghost-at entry : ghost_indefer := 0
+//@   ghost-at call Close~ : ghost_indefer := 1     -- the deferred Close is about to run (the `!`/`~` call filters only work at before-call sites, hence the marker)
+//@   ghost-at after call Close : ghost_xclosed := ite(ghost_indefer == 1, ghost_xclosed, ite(ghost_copied == 1 && result == nil, 1, 0))    -- result of the EXPLICIT Close (ghost_closed above is overwritten by the deferred one when the function returns)
+//@   assert-at return : result.1 == nil ==> ghost_present == 1 && ghost_copied == 1 && ghost_xclosed == 1
+//@   assert-at return #8 : result.1 == nil && result.0.Digest == digest && result.0.Size == n && result.0.MediaType == mediatype
+//@   assert-at call io.MultiWriter #1 : len(arg0) == 2 && arg0[1] == sha256sum
+//@   assert-at call io.Copy #1 : arg1 == r
+//@   ghost-at entry : ghost_mwv := 0
+//@   ghost-at entry : ghost_mw := 0
+//@   ghost-at after call io.MultiWriter #1 : ghost_mw := 1
+//@   ghost-at after call io.MultiWriter #1 : ghost_mwv := result
+//@   assert-at call io.Copy #1 : ghost_mw == 1 && arg0 == ghost_mwv      -- the copy goes through the writer that feeds both the temp file and the hash
+//@   assert-at call Sum #1 : arg0 == sha256sum
+//@   assert-at call os.Rename : ghost_tmp == 1 && ghost_copied == 1 && ghost_closed == 1 && arg0 == temp.Name() && arg1 == blobpath(digest)
+//@   assert-at call os.RemoveAll : false
+//@   assert-at call os.Truncate : false
 
 // NewLayerFromLayer creates nothing: it returns a layer only for a blob file that exists.
 //@ func NewLayerFromLayer
@@ -171,6 +246,12 @@ package server
 //@   assert-at call os.Stat #1 : arg0 == blobpath(digest)
 //@   ghost-at after call os.Stat #1 : ghost_stat := ite(result.1 == nil, 1, 0)
 //@   assert-at return #4 : ghost_stat == 1 && result.0.Digest == digest && result.1 == nil
+// (round 4) every successful return, not only the one at today's position; the size recorded is the
+// size of that blob file.
+//@   assert-at return : result.1 == nil && digest != "" ==> ghost_stat == 1 && result.0.Digest == digest     -- (guard digest != "": the first return, for an empty digest, hands back errors.New's result, which govc does not know to be non-nil)
+//@   assert-at return #4 : result.0.Size == fi.Size() && result.0.MediaType == mediatype
+//@   assert-at call os.Remove : false
+//@   assert-at call os.Rename : false
 
 // PruneLayers: a directory entry is removed directly only if GetBlobsPath refused its name and
 // errors.Is(err, ErrInvalidDigestFormat) held (the digest pattern failed: temp files, -partial
@@ -187,6 +268,12 @@ package server
 //@   assert-at call os.Remove #1 : arg0 == fpjoin2(p, blob.Name())
 //@   loop 1 invariant forall s string :: has(deleteMap, s) ==> s == "" || digestshape(s)
 //@   assert-at call deleteUnusedLayers #1 : forall s string :: has(deleteMap, s) ==> s == "" || digestshape(s)
+// (round 4) the directory listed is the blobs directory; the direct-removal clause holds at every
+// os.Remove site; no other removal primitive.
+//@   assert-at call os.ReadDir #1 : arg0 == p && p == blobpath("")
+//@   assert-at call os.Remove : ghost_refused == 1 && ghost_badformat == 1 && arg0 == fpjoin2(p, blob.Name())
+//@   assert-at call os.RemoveAll : false
+//@   assert-at call os.Rename : false
 
 // PruneDirectory removes a path only if Lstat says it is a directory and not a symlink, all
 // entries were visited without error, and a listing read AFTER that is empty.
@@ -194,11 +281,27 @@ package server
 //@   ghost-at entry : ghost_empty := 0
 //@   ghost-at after call os.ReadDir #2 : ghost_empty := ite(result.1 == nil && len(result.0) == 0, 1, 0)
 //@   assert-at call os.Remove #1 : ghost_empty == 1 && arg0 == path
+// (round 4) every os.Remove site; only what Lstat called a directory; never a whole tree
+// (os.RemoveAll would take the manifests below it); the listing that is checked for emptiness and
+// the recursion are about `path` itself.
+//@   ghost-at entry : ghost_isdir := 0
+//@   ghost-at after call IsDir #1 : ghost_isdir := ite(result, 1, 0)
+//@   assert-at call os.Remove : ghost_empty == 1 && ghost_isdir == 1 && arg0 == path
+//@   assert-at call os.RemoveAll : false
+//@   assert-at call os.Lstat #1 : arg0 == path
+//@   assert-at call os.ReadDir : arg0 == path
+//@   assert-at call PruneDirectory #1 : arg0 == fpjoin2(path, entry.Name())
 
 // fixBlobs: a file is renamed only if its base name is "sha256:<rest>", to "sha256-<rest>" in
 // the same directory.
 //@ func fixBlobs$1
 //@   assert-at call os.Rename #1 : arg0 == path && ok && typ == "sha256"
+// (round 4) the new name is in the same directory and is "sha256-<rest>": a blob keeps its digest.
+//@   assert-at call Dir #1 : arg0 == path
+//@   assert-at call Join #1 : len(arg0) == 2 && arg0[1] == typ + "-" + sha
+//@   assert-at call os.Rename : arg1 == newPath
+//@   assert-at call os.Remove : false
+//@   assert-at call os.RemoveAll : false
 
 // Serve, startup sequence: fixBlobs first; the prune runs only if Manifests(false) - which fails
 // on ANY unreadable manifest - returned no error; PruneDirectory only after PruneLayers returned nil.
@@ -213,6 +316,15 @@ package server
 //@   assert-at call PruneLayers #1 : ghost_fixed == 1 && ghost_allreadable == 1
 //@   ghost-at after call PruneLayers #1 : ghost_pruned := ite(result == nil, 1, 0)
 //@   assert-at call PruneDirectory #1 : ghost_allreadable == 1 && ghost_pruned == 1
+// (round 4) fixBlobs walks the blobs directory, the directory prune starts at the manifests root;
+// every PruneLayers / PruneDirectory site obeys the order; Serve removes nothing itself.
+//@   assert-at call fixBlobs #1 : arg0 == blobpath("")
+//@   assert-at call PruneDirectory #1 : arg0 == manifestsPath
+//@   assert-at call PruneLayers : ghost_fixed == 1 && ghost_allreadable == 1
+//@   assert-at call PruneDirectory : ghost_allreadable == 1 && ghost_pruned == 1
+//@   assert-at call deleteUnusedLayers : false
+//@   assert-at call os.Remove : false
+//@   assert-at call os.RemoveAll : false
 
 // createModel: every layer is in the blob store before the manifest is written (all calls that
 // create or drop layers come before WriteManifest; none after), nil is returned only after
@@ -232,6 +344,15 @@ package server
 //@   assert-at call WriteManifest #1 : arg1 == *configLayer && arg2 == layers
 //@   ghost-at after call WriteManifest : ghost_written := ite(result == nil, 1, 2)
 //@   assert-at return : result == nil ==> ghost_written == 1
+// (round 4) the manifest is written once, under the name the caller asked for; createModel itself
+// removes nothing (the prune of the replaced manifest is the caller's, after success; a clean-up of
+// "its" new layers on failure would delete blobs that NewLayer found already in the store).
+//@   assert-at call WriteManifest : arg0 == name && ghost_written == 0
+//@   assert-at call os.Remove : false
+//@   assert-at call os.RemoveAll : false
+//@   assert-at call RemoveLayers : false
+//@   assert-at call (*Layer).Remove : false
+//@   assert-at call deleteUnusedLayers : false
 
 // The create goroutine: the replaced manifest is read before anything is written; its layers are
 // pruned only after createModel returned nil (new manifest on disk), through RemoveLayers (scan).
@@ -245,10 +366,25 @@ package server
 //@   assume-at call createModel #1 : fqname(name.Host, name.Namespace, name.Model, name.Tag)   -- C13's concern (store confinement), not decided here: name passed IsValid in CreateHandler and getExistingName only substitutes parts of names that Manifests accepted (n.IsValid()); "every key of the scan result is valid" cannot be stated for a map with a struct key
 //@   ghost-at after call createModel #1 : ghost_created := ite(result == nil, 1, 0)
 //@   assert-at call RemoveLayers #1 : ghost_created == 1 && arg0 == oldManifest
+// (round 4) the manifest read as "replaced" is the one of the name being created, createModel gets
+// that name; every RemoveLayers site obeys the clause above; nothing else is removed here.
+//@   assert-at call ParseNamedManifest #1 : arg0 == name
+//@   assert-at call createModel #1 : arg1 == name
+//@   assert-at call RemoveLayers : ghost_created == 1 && arg0 == oldManifest
+//@   assert-at call os.Remove : false
+//@   assert-at call os.RemoveAll : false
+//@   assert-at call (*Manifest).Remove : false
+//@   assert-at call (*Layer).Remove : false
+//@   assert-at call deleteUnusedLayers : false
 
 // removeLayer (create with an overriding template/system/...): blobs are dropped only through
 // Layer.Remove (scan first).
 //@ func removeLayer$1
+// (round 4) ... and through nothing else: no direct removal primitive in the closure.
+//@   assert-at call os.Remove : false
+//@   assert-at call os.RemoveAll : false
+//@   assert-at call os.Rename : false
+//@   assert-at call os.Truncate : false
 
 // The scan in Layer.Remove only sees manifests on disk, not the layer list of the model being
 // created. So inside one setter the overridden layers are dropped BEFORE the replacement is
@@ -260,19 +396,31 @@ package server
 //@   ghost-at entry : ghost_made := 0
 //@   ghost-at after call NewLayer #1 : ghost_made := 1
 //@   assert-at call removeLayer : ghost_made == 0
+//@   assert-at call os.Remove : false      -- (round 4) a setter drops blobs only through removeLayer -> Layer.Remove (scan)
+//@   assert-at call os.RemoveAll : false
+//@   assert-at call (*Layer).Remove : false
 //@ func setSystem
 //@   ghost-at entry : ghost_made := 0
 //@   ghost-at after call NewLayer #1 : ghost_made := 1
 //@   assert-at call removeLayer : ghost_made == 0
+//@   assert-at call os.Remove : false      -- (round 4) a setter drops blobs only through removeLayer -> Layer.Remove (scan)
+//@   assert-at call os.RemoveAll : false
+//@   assert-at call (*Layer).Remove : false
 //@ func setParameters
 //@   assume-at call GetBlobsPath : ErrInvalidDigestFormat != nil   -- package-level errors.New value, assigned once at package init
 //@   ghost-at entry : ghost_made := 0
 //@   ghost-at after call NewLayer #1 : ghost_made := 1
 //@   assert-at call removeLayer : ghost_made == 0
+//@   assert-at call os.Remove : false      -- (round 4) a setter drops blobs only through removeLayer -> Layer.Remove (scan)
+//@   assert-at call os.RemoveAll : false
+//@   assert-at call (*Layer).Remove : false
 //@ func setMessages
 //@   ghost-at entry : ghost_made := 0
 //@   ghost-at after call NewLayer #1 : ghost_made := 1
 //@   assert-at call removeLayer : ghost_made == 0
+//@   assert-at call os.Remove : false      -- (round 4) a setter drops blobs only through removeLayer -> Layer.Remove (scan)
+//@   assert-at call os.RemoveAll : false
+//@   assert-at call (*Layer).Remove : false
 
 // CopyModel touches no blob and writes one manifest: the source is opened before the destination
 // is created (truncated), and a copy onto itself (same manifest path) returns before any effect,
@@ -296,9 +444,117 @@ package server
 //@   ghost-at after call io.Copy #1 : ghost_copied := ite(result.1 == nil, 1, 0)
 //@   assert-at call io.Copy #1 : ghost_created == 1 && ghost_srcopen == 1
 //@   assert-at return : result == nil ==> (ghost_copied == 1 || fpjoin4(src.Host, src.Namespace, src.Model, src.Tag) == fpjoin4(dst.Host, dst.Namespace, dst.Model, dst.Tag))
+// (round 4) which files: the source opened is the manifest of src, the file created is the manifest
+// of dst (both below the manifests root), the copy runs from the one into the other; CopyModel
+// removes, renames and links nothing.
+//@   assert-at call os.Open #1 : arg0 == srcpath && srcpath == fpjoin2(manifests, fpjoin4(src.Host, src.Namespace, src.Model, src.Tag))
+//@   assert-at call os.Create #1 : dstpath == fpjoin2(manifests, fpjoin4(dst.Host, dst.Namespace, dst.Model, dst.Tag))
+//@   assert-at call os.Create : ghost_srcopen == 1 && arg0 == dstpath
+//@   assert-at call os.Remove : false
+//@   assert-at call os.RemoveAll : false
+//@   assert-at call os.Rename : false
+//@   assert-at call os.Link : false
+//@   assert-at call os.Symlink : false
+//@   assert-at call os.WriteFile : false
+// (requested by C13, whose block gives GetManifestPath / manifestfile / fpdir) the three paths in terms
+// of the four validated name parts, not of a local: a path built from dst.String() or
+// DisplayShortest() (':' in a host, other separators) does not verify.
+//@   assert-at call os.Create #1 : arg0 == manifestfile(dst.Host, dst.Namespace, dst.Model, dst.Tag)
+//@   assert-at call os.Open #1 : arg0 == manifestfile(src.Host, src.Namespace, src.Model, src.Tag)
+//@   assert-at call os.MkdirAll #1 : arg0 == fpdir(manifestfile(dst.Host, dst.Namespace, dst.Model, dst.Tag))
 
 // Manifests(false) - the corrupt-manifest check of the startup sequence - skips nothing silently:
 // the three places that skip a directory entry (bad path, invalid name, unreadable manifest) are
 // reached only with continueOnError == true; with false each of them returns an error instead.
 //@ func Manifests
 //@   assert-at call log/slog.Warn : continueOnError
+// (round 4) COMPLETENESS OF THE SCAN, as far as a per-function contract reaches: the scan-then-remove
+// argument is only as good as the list of manifests. An entry of the glob result is passed over
+// without a trace only if os.Stat called it a directory; every other entry either ended in one of the
+// three logged skips or had its manifest parsed successfully (what follows is ms[n] = m). A new
+// silent `continue` (a filter on names, hosts, file modes, ...) breaks the invariant at its back edge.
+// The ghosts hold the index (rangeindex + 1 inside the body) of the entry for which the step was
+// last taken. Loop 1: entries of the glob result.
+//@   ghost-at entry : ghost_isdir := 0
+//@   ghost-at entry : ghost_warned := 0 - 2
+//@   ghost-at entry : ghost_parsed := 0 - 2
+//@   ghost-at after call IsDir #1 : ghost_isdir := ite(result, 1, 0)
+//@   ghost-at call log/slog.Warn : ghost_warned := rangeindex + 1
+//@   ghost-at after call ParseNamedManifest #1 : ghost_parsed := ite(result.1 == nil, rangeindex + 1, 0 - 2)
+//@   loop 1 invariant rangeindex >= 0 ==> ghost_isdir == 1 || ghost_warned == rangeindex || ghost_parsed == rangeindex
+//@   assert-at call ParseNamedManifest #1 : arg0 == n
+//@   assert-at call os.Stat #1 : arg0 == match
+//@   assert-at call os.Remove : false
+//@   assert-at call os.RemoveAll : false
+
+// ---- (3b) THE CALLERS THAT CREATE NAMES (round 4) ---------------------------------------------
+// "No two listed models differ only by letter case" needs more than getExistingName's contract:
+// every operation that can put a NEW manifest name on disk (create, pull, copy destination) must
+// use the name getExistingName returned, and only after it returned without error. ghost_canon is
+// set from the recorded result of the call; strid() (uninterpreted, C13 block) names the four
+// parts of the returned name so that "the name used is the name returned" can be stated with
+// integer ghosts (a request name passed on unchanged, or re-parsed, has unknown ids).
+//@ func (*Server).CopyHandler
+//@   ghost-at entry : ghost_canon := 0
+//@   ghost-at entry : ghost_ch := 0
+//@   ghost-at entry : ghost_cn := 0
+//@   ghost-at entry : ghost_cm := 0
+//@   ghost-at entry : ghost_ct := 0
+//@   ghost-at after call getExistingName #2 : ghost_canon := ite(result.1 == nil, 1, 0)
+//@   ghost-at after call getExistingName #2 : ghost_ch := strid(result.0.Host)
+//@   ghost-at after call getExistingName #2 : ghost_cn := strid(result.0.Namespace)
+//@   ghost-at after call getExistingName #2 : ghost_cm := strid(result.0.Model)
+//@   ghost-at after call getExistingName #2 : ghost_ct := strid(result.0.Tag)
+//@   assert-at call CopyModel : ghost_canon == 1 && strid(arg1.Host) == ghost_ch && strid(arg1.Namespace) == ghost_cn && strid(arg1.Model) == ghost_cm && strid(arg1.Tag) == ghost_ct
+//@   assert-at call WriteManifest : false
+//@   assert-at call os.Create : false
+//@   assert-at call os.WriteFile : false
+//@   assert-at call os.Rename : false
+
+//@ func (*Server).CreateHandler
+//@   ghost-at entry : ghost_canon := 0
+//@   ghost-at entry : ghost_ch := 0
+//@   ghost-at entry : ghost_cn := 0
+//@   ghost-at entry : ghost_cm := 0
+//@   ghost-at entry : ghost_ct := 0
+//@   ghost-at after call getExistingName #1 : ghost_canon := ite(result.1 == nil, 1, 0)
+//@   ghost-at after call getExistingName #1 : ghost_ch := strid(result.0.Host)
+//@   ghost-at after call getExistingName #1 : ghost_cn := strid(result.0.Namespace)
+//@   ghost-at after call getExistingName #1 : ghost_cm := strid(result.0.Model)
+//@   ghost-at after call getExistingName #1 : ghost_ct := strid(result.0.Tag)
+//@   assert-at call CreateHandler$1 : ghost_canon == 1 && strid(name.Host) == ghost_ch && strid(name.Namespace) == ghost_cn && strid(name.Model) == ghost_cm && strid(name.Tag) == ghost_ct
+
+//@ func (*Server).PullHandler
+//@   ghost-at entry : ghost_canon := 0
+//@   ghost-at entry : ghost_ch := 0
+//@   ghost-at entry : ghost_cn := 0
+//@   ghost-at entry : ghost_cm := 0
+//@   ghost-at entry : ghost_ct := 0
+//@   ghost-at after call getExistingName #1 : ghost_canon := ite(result.1 == nil, 1, 0)
+//@   ghost-at after call getExistingName #1 : ghost_ch := strid(result.0.Host)
+//@   ghost-at after call getExistingName #1 : ghost_cn := strid(result.0.Namespace)
+//@   ghost-at after call getExistingName #1 : ghost_cm := strid(result.0.Model)
+//@   ghost-at after call getExistingName #1 : ghost_ct := strid(result.0.Tag)
+//@   assert-at call PullHandler$1 : ghost_canon == 1 && strid(name.Host) == ghost_ch && strid(name.Namespace) == ghost_cn && strid(name.Model) == ghost_cm && strid(name.Tag) == ghost_ct
+
+// The pull goroutine hands PullModel the display form of exactly that captured name.
+//@ func (*Server).PullHandler$1
+//@   ghost-at entry : ghost_shown := 0
+//@   ghost-at entry : ghost_sid := 0
+//@   assert-at call DisplayShortest #1 : arg0 == name
+//@   ghost-at after call DisplayShortest #1 : ghost_shown := 1
+//@   ghost-at after call DisplayShortest #1 : ghost_sid := strid(result)
+//@   assert-at call PullModel : ghost_shown == 1 && strid(arg1) == ghost_sid
+
+// quantizeLayer (create with a quantization request) works on a temp file next to the source blob;
+// the source blob itself - the base model's layer when creating FROM a model - is only read: the one
+// thing removed is the temp file, the new layer goes through NewLayer (round 4).
+//@ func quantizeLayer
+//@   assume-at call GetBlobsPath : ErrInvalidDigestFormat != nil   -- package-level errors.New value, assigned once at package init, never reassigned
+//@   assert-at call os.Remove : arg0 == temp.Name()
+//@   assert-at call os.RemoveAll : false
+//@   assert-at call os.Rename : false
+//@   assert-at call os.Truncate : false
+//@   assert-at call os.Create : false
+//@   assert-at call os.WriteFile : false
+//@   assert-at call llama.Quantize #1 : arg0 == blob && arg1 == temp.Name() && blob == blobpath(layer.Digest)
